@@ -50,6 +50,10 @@ CLAIMS["C04"] = ("other", "structural rules over the seat manager's SSA: modulus
   "Decides the clauses of the dead-button rotation that are visible in the shape of the code (which old value feeds which seat, refusal purity and guards, scan shapes, eligibility definition, seat-count-independent arithmetic). One genuine defect (literal modulus 9) was repaired (fix: commit). 'Nobody skipped / never backwards / seats distinct' over all reachable states needs state exploration and is not decided.",
   "DESIGN.md §4 C04, §5 F1", TRUST)
 
+CLAIMS["C05"] = ("other", "provenance of the dealt-in flag (loop range, same-player source, must-pass-through of init/rotate), guard checks on the hand-list appends, refresh pairing for every bankroll writer, phi/guard analysis of the waiting flag in both assigners and in the rotation, definitional check of eligibility",
+  "Decides the data flow that makes 'dealt in' equal 'eligible' at open, the has-chips refresh after every chip flow, the waiting-flag assignment on seating and its re-evaluation only for non-eligible seats, and the propagation of the refusal. One genuine defect (add-on without has-chips refresh) was repaired (fix: commit). Bounded waiting and persistence across hands are history properties and are not decided.",
+  "DESIGN.md §4 C05, §5 F8", TRUST)
+
 REASONS = {}
 
 checks = []
